@@ -405,12 +405,102 @@ func countCallsBefore(fd *ast.FuncDecl, call *ast.CallExpr, info *types.Info, fn
 	return res
 }
 
+// visitorLoopRule (R10.5): every visitor registered with the configuration gets a walk of its
+// own over the tree — a range loop over the configuration's visitor list whose body calls
+// ast.Walk with the loop variable. Visitors fused into one walk do not traverse the subtrees
+// that an earlier visitor put in place on Exit.
+func visitorLoopRule(p *core.Program, r *core.Report, rule string) {
+	info := p.Pkg("").TypesInfo
+	walk := p.Pkg("ast").Types.Scope().Lookup("Walk")
+	n := 0
+	for _, fd := range p.FuncDecls("") {
+		if fd.Body == nil {
+			continue
+		}
+		ast.Inspect(fd.Body, func(nd ast.Node) bool {
+			sel, ok := nd.(*ast.SelectorExpr)
+			if !ok || sel.Sel.Name != "Visitors" {
+				return true
+			}
+			if t := info.TypeOf(sel.X); t == nil || !strings.HasSuffix(t.String(), "conf.Config") {
+				return true
+			}
+			return true
+		})
+	}
+	// every read of Config.Visitors in the root package outside the option that appends to it
+	for _, fd := range p.FuncDecls("") {
+		if fd.Body == nil {
+			continue
+		}
+		var stack []ast.Node
+		ast.Inspect(fd.Body, func(nd ast.Node) bool {
+			if nd == nil {
+				stack = stack[:len(stack)-1]
+				return true
+			}
+			stack = append(stack, nd)
+			sel, ok := nd.(*ast.SelectorExpr)
+			if !ok || sel.Sel.Name != "Visitors" {
+				return true
+			}
+			if t := info.TypeOf(sel.X); t == nil || !strings.HasSuffix(t.String(), "conf.Config") {
+				return true
+			}
+			// classify the use by its parent
+			if len(stack) < 2 {
+				return true
+			}
+			switch par := stack[len(stack)-2].(type) {
+			case *ast.RangeStmt:
+				if par.X != ast.Expr(sel) {
+					return true
+				}
+				n++
+				key := fmt.Sprintf("%s/each registered visitor walks the tree on its own#%d", core.FuncName("", fd), n)
+				v, _ := par.Value.(*ast.Ident)
+				ok := false
+				if v != nil {
+					for _, st := range par.Body.List {
+						if es, isE := st.(*ast.ExprStmt); isE {
+							if c, isC := es.X.(*ast.CallExpr); isC && len(c.Args) == 2 {
+								if fn := eng.CalleeOf(info, c); fn != nil && types.Object(fn) == walk {
+									if id, isID := eng.Unparen(c.Args[1]).(*ast.Ident); isID && objOf(info, id) == objOf(info, v) {
+										ok = true
+									}
+								}
+							}
+						}
+					}
+				}
+				r.Check(ok, rule, key, p.Pos(par.Pos()), "for _, v := range config.Visitors { ast.Walk(&tree.Node, v) }", "the loop over the registered visitors does not give each of them an ast.Walk of its own")
+			case *ast.CallExpr:
+				if isBuiltinCall(info, par, "append") || isBuiltinCall(info, par, "len") {
+					return true
+				}
+				n++
+				r.Bad(rule, fmt.Sprintf("%s/each registered visitor walks the tree on its own#%d", core.FuncName("", fd), n), p.Pos(par.Pos()), "the list of registered visitors is handed to `"+eng.ExprStr(par.Fun)+"` instead of being walked one visitor at a time: visitors fused into a single walk never traverse a subtree that an earlier visitor put in place on Exit, so a later patch does not apply inside it")
+			case *ast.AssignStmt, *ast.BinaryExpr:
+				// c.Visitors = append(…) / len(config.Visitors) >= 0
+			default:
+				n++
+				r.Bad(rule, fmt.Sprintf("%s/each registered visitor walks the tree on its own#%d", core.FuncName("", fd), n), p.Pos(nd.Pos()), fmt.Sprintf("the list of registered visitors is used in a %T, not walked one visitor at a time", par))
+			}
+			return true
+		})
+	}
+	if n == 0 {
+		r.Unk(rule, "expr.Compile/each registered visitor walks the tree on its own", "", "no loop over the configuration's visitors found")
+	}
+}
+
 func runC10(p *core.Program, r *core.Report) {
 	r.Explanation = "Decides, for ast.Walk over finite trees of the module's node kinds (by structural induction over the tree): the walker's dispatcher has a clause for every node kind; every clause hands the ADDRESS of every child slot (fields of type Node / []Node) to the recursion exactly once on every path, in declaration (= source) order, a nil-guarded slot being exempt on the path where it is nil; Enter(node) precedes the dispatch, which re-reads *node; Exit(node) is called exactly once after the children; ast.Patch carries type and location over and stores through the pointer; every stage of expr.Compile and every pass of the optimizer/patcher walks the one tree that is then checked and compiled; library rewrites keep the tree a tree (no operand of the matched node is used twice)."
 	r.NotDecided = []string{"behaviour of user visitors themselves", "trees that contain node kinds from outside the module"}
 	walkerRules(p, r, "R10")
 	patchRules(p, r, "R10.4")
 	sameTreeRules(p, r, "R10.5")
+	visitorLoopRule(p, r, "R10.5")
 	linearityRules(p, r, "R10.6")
 	r.Floor("R10.1", 22)
 	r.Floor("R10.2", 23)
@@ -422,6 +512,7 @@ func runC10(p *core.Program, r *core.Report) {
 
 func c10Controls() []core.Mutant {
 	return []core.Mutant{
+		{Name: "registered visitors fused into one walk", File: "expr.go", Old: "\t\tfor _, v := range config.Visitors {\n\t\t\tast.Walk(&tree.Node, v)\n\t\t}", New: "\t\tast.Walk(&tree.Node, fused(config.Visitors))", Edits: [][2]string{{"// Run evaluates given bytecode program.", "type fused []ast.Visitor\n\nfunc (f fused) Enter(n *ast.Node) {\n\tfor _, v := range f {\n\t\tv.Enter(n)\n\t}\n}\n\nfunc (f fused) Exit(n *ast.Node) {\n\tfor _, v := range f {\n\t\tv.Exit(n)\n\t}\n}\n\n// Run evaluates given bytecode program."}}, Rule: "R10.5", Construct: "each registered visitor walks"},
 		{Name: "drop w.walk(&n.Exp2)", File: "ast/visitor.go", Old: "\t\tw.walk(&n.Exp2)\n", New: "", Rule: "R10.2", Construct: "ConditionalNode/slot Exp2"},
 		{Name: "walk Right before Left", File: "ast/visitor.go", Old: "\tcase *BinaryNode:\n\t\tw.walk(&n.Left)\n\t\tw.walk(&n.Right)\n", New: "\tcase *BinaryNode:\n\t\tw.walk(&n.Right)\n\t\tw.walk(&n.Left)\n", Rule: "R10.2", Construct: "BinaryNode/order"},
 		{Name: "omit Exit in PairNode", File: "ast/visitor.go", Old: "\t\tw.walk(&n.Value)\n\t\tw.visitor.Exit(node)\n", New: "\t\tw.walk(&n.Value)\n", Rule: "R10.3", Construct: "PairNode/exit"},
